@@ -994,7 +994,9 @@ def random_spec(rng, profile="small"):
              intergenic_multi=rng.choice([0, 0, 1, 2]), deep_gene=rng.choice([0] * 9 + [1]),
              long_locus=rng.choice([0, 0, 0, 0, 1]), bam_split=rng.choice(["random", "random", "chunks", "tiny"]),
              novel_gene_overlap=rng.choice([0, 0, 1]), chr_naming=rng.choice([0, 0, 0, 1]), split_gene=rng.choice([0, 0, 1]),
-             decoy_chr=rng.choice([0, 0, 1]), novel_locus=rng.choice([0, 0, 1]), twin_chr=rng.choice([0, 0, 0, 1]))
+             decoy_chr=rng.choice([0, 0, 1]), novel_locus=rng.choice([0, 0, 1]), twin_chr=rng.choice([0, 0, 0, 1]),
+             bridge=rng.choice([0, 0, 0, 2]), outside_exon=rng.choice([0, 0, 0, 1]), ambig_multi=rng.choice([0, 0, 0, 3]),
+             sq_order=rng.choice([0, 0, 1]))
     return s
 
 
